@@ -63,6 +63,17 @@ def programs(tier, seed):
                 yield [SMALL[i]() for i in combo], regs
     for _ in range(1500 if tier == "quick" else 40000):
         yield random_program(rnd, rnd.randint(2, 12)), initial_regs(rnd)
+    # ecall-dense programs: several (printing) ecalls per run, directly behind taken / untaken transfers, behind RAW
+    # stalls that produce their argument, inside count-down loops -- the situations in which the pipeline holds,
+    # squashes and releases ecalls repeatedly within one run
+    E = [lambda: I.ECALL(), lambda: I.ECALL(), lambda: I.BEQ(0, 0, 8), lambda: I.BNE(1, 0, -8), lambda: I.BNE(1, 0, -12), lambda: I.BEQ(1, 0, 8),
+         lambda: I.JAL(0, 8, 0), lambda: I.ADDI(1, 1, -1), lambda: I.ADDI(1, 0, 2), lambda: I.ADD(10, 1, 2), lambda: I.ADDI(10, 10, 1),
+         lambda: I.ADD(2, 1, 1), lambda: I.ADDI(0, 0, 0), lambda: I.LW(10, 3, 0), lambda: I.SW(3, 10, 4)]
+    for _ in range(2500 if tier == "quick" else 60000):
+        regs = initial_regs(rnd)
+        regs[17] = rnd.choice([1, 1, 1, 36, 11, 34])
+        regs[1] = rnd.choice([0, 1, 2, 3])
+        yield [rnd.choice(E)() for _ in range(rnd.randint(3, 9))], regs
 
 
 def run_c02(tier, seed):
@@ -84,7 +95,7 @@ def run_c02(tier, seed):
         if key is not None and len(viol) < 5:
             viol.append({"key": "C02:" + key + ":" + "/".join(str(p) for p in prog)[:120], "what": key, **describe(prog, regs), "regs": regs})
     return {"evaluations": evals, "distinct_nontrivial": len(seen), "violations": viol, "samples": samples,
-            "rule": "programs: all sequences of length <= %d over an 11-template alphabet x %d register files, plus seeded random programs (length 2..12, full alphabet of bounded/progs.py); non-trivial = the five-stage run had a stall or a flush; distinct by (mnemonic sequence, #stalls, #flushes)" % (3 if tier == "quick" else 4, 2 if tier == "quick" else 4),
+            "rule": "programs: all sequences of length <= %d over an 11-template alphabet x %d register files, plus seeded random programs (length 2..12, full alphabet of bounded/progs.py) and ecall-dense random programs (length 3..9, 15 templates: printing ecalls, taken/untaken/backward branches, jumps, producers of a0, loads/stores); non-trivial = the five-stage run had a stall or a flush; distinct by (mnemonic sequence, #stalls, #flushes)" % (3 if tier == "quick" else 4, 2 if tier == "quick" else 4),
             "bound": "program length <= 12, <= 120 single-cycle steps", "contract": "five-stage == single-cycle on registers, data memory, output, exit code, retired/branch/call counts, retired order; same fault address and state at a fault"}
 
 
